@@ -1972,7 +1972,9 @@ func (schema *Schema) visitJSONObject(settings *schemaValidationSettings, value 
 			reqRO := settings.asreq && propSchema.Value.ReadOnly && !settings.readOnlyValidationDisabled
 			repWO := settings.asrep && propSchema.Value.WriteOnly && !settings.writeOnlyValidationDisabled
 
-			if f := settings.defaultsSet; f != nil && value[propName] == nil {
+			if _, present := value[propName]; settings.defaultsSet != nil && !present {
+				f := settings.defaultsSet
+				// an explicit null is a value, not an absent property
 				if dflt := propSchema.Value.Default; dflt != nil && !reqRO && !repWO {
 					// the default belongs to the (shared) document: never alias it into the value
 					value[propName] = deepcopy.Copy(dflt)
